@@ -880,6 +880,14 @@ func extractFacts(repo string) (*Facts, error) {
 				continue
 			}
 			var firstRead, lastRead, firstFree token.Pos
+			// a deferred call runs when the function returns, i.e. after every other statement
+			deferred := map[*ast.CallExpr]bool{}
+			ast.Inspect(fd.Body, func(n ast.Node) bool {
+				if ds, ok := n.(*ast.DeferStmt); ok {
+					deferred[ds.Call] = true
+				}
+				return true
+			})
 			ast.Inspect(fd.Body, func(n ast.Node) bool {
 				call, ok := n.(*ast.CallExpr)
 				if !ok {
@@ -894,8 +902,12 @@ func extractFacts(repo string) (*Facts, error) {
 					}
 					lastRead = call.End()
 				case strings.HasPrefix(base, "Collect") || base == "FreeIssue" || base == "Put":
-					if firstFree == token.NoPos {
-						firstFree = call.Pos()
+					pos := call.Pos()
+					if deferred[call] {
+						pos = fd.Body.End()
+					}
+					if firstFree == token.NoPos || pos < firstFree {
+						firstFree = pos
 					}
 				}
 				return true
